@@ -58,6 +58,15 @@ def check(inp):
     s_col = post["s"].to_value(vu) if "s" in post.par_names else np.zeros(n)
     rows = np.column_stack([post["P"].to_value(u.day), np.asarray(post["e"]), post["omega"].to_value(u.rad), post["M0"].to_value(u.rad), s_col])
     ll_marg = joker.marginal_ln_likelihood(data, post, in_memory=True)
+    # the same rows through the CACHED path, stored in other (equivalent) units: the identity is about the row, not about how it is stored
+    post_u = post.copy()
+    post_u.tbl["P"] = post_u.tbl["P"].to(u.yr)
+    post_u.tbl["omega"] = post_u.tbl["omega"].to(u.deg)
+    post_u.tbl["M0"] = post_u.tbl["M0"].to(u.deg)
+    ll_cached = joker.marginal_ln_likelihood(data, post_u, in_memory=False, n_batches=2)
+    if not np.allclose(ll_cached, ll_marg, rtol=1e-9, atol=1e-7):
+        bad("marginal_ln_likelihood", "same-value-for-the-same-row-through-the-cached-path-in-other-units", maxdiff=float(np.max(np.abs(ll_cached - ll_marg))))
+        return fails
     want_ll, parts = t01.closed_form(prior, data, rows, inp, parts=True)
     names = ["K", "v0"] + [f"dv0_{k}" for k in range(1, inp["no"] + 1)] + [f"v{j}" for j in range(1, inp["pt"])]
     srcs = [data] if inp["no"] == 0 else list(data)
